@@ -19,6 +19,7 @@ class Expect(object):
         self.detail = ""
         self.needs_layout_change = False    # guard: probe must confirm some size/offset change of type_name
         self.entity = None          # name of the mutated member / enumerator ... (for --harmless reports)
+        self.nested = False         # the mutated member list belongs to an anonymous member of the named record
         self.__dict__.update(kw)
 
     def to_json(self):
@@ -79,7 +80,7 @@ def m_append_member(prog, rng):
         return None
     nm = _fresh_member(q, rng, "a")
     holder.fields.append(Field(nm, Builtin(rng.choice(["long", "double", "int", "char", "short"]))))
-    return q, Expect("append-member", affected=[u.name for u in users], type_name=t.key(), entity=nm)
+    return q, Expect("append-member", affected=[u.name for u in users], type_name=t.key(), entity=nm, nested=holder is not t2)
 
 
 def m_insert_member(prog, rng):
@@ -97,7 +98,7 @@ def m_insert_member(prog, rng):
     pos = rng.randrange(0, len(holder.fields))
     nm = _fresh_member(q, rng, "i")
     holder.fields.insert(pos, Field(nm, Builtin(rng.choice(["long", "double", "int", "char", "short"]))))
-    return q, Expect("insert-member", affected=[u.name for u in users], type_name=t.key(), entity=nm)
+    return q, Expect("insert-member", affected=[u.name for u in users], type_name=t.key(), entity=nm, nested=holder is not t2)
 
 
 def m_remove_member(prog, rng):
@@ -115,7 +116,7 @@ def m_remove_member(prog, rng):
         return None
     victim = rng.choice(named)
     holder.fields.remove(victim)
-    return q, Expect("remove-member", affected=[u.name for u in users], type_name=t.key(), entity=victim.name)
+    return q, Expect("remove-member", affected=[u.name for u in users], type_name=t.key(), entity=victim.name, nested=holder is not t2)
 
 
 def m_reorder_members(prog, rng):
@@ -163,7 +164,7 @@ def m_change_member_type(prog, rng):
     new = rng.choice([b for b in _SIZES if _SIZES[b] != _SIZES[old]])
     f.type = Builtin(new)
     return q, Expect("change-member-type", affected=[u.name for u in users], type_name=t.key(), entity=f.name,
-                     detail="%s -> %s" % (old, new))
+                     detail="%s -> %s" % (old, new), nested=holder is not t2)
 
 
 def m_change_enumerator_value(prog, rng):
